@@ -1,7 +1,5 @@
 """Properties not (yet) claimed, with the reason. Kept current as checks are added."""
 NOT_CLAIMED = {
-    "C10": "not built: the coroutine interpreter (task/at_coroutine_exit/await_transform under the simulator) does not exist yet; nothing is claimed",
-    "C11": "not built as a check of its own: only the via/on context oracle (c11.via) and the v2 mutex/event/async_pass completion-context oracles exist inside other checks; the coroutine part and the static-trait matrix are missing, so the property is not claimed",
     "C14": "not built: the fd layer (epoll on the real kernel with virtual timerfd) and the io_uring kernel model planned in DESIGN.md 2.6 do not exist yet; nothing is claimed",
     "C20": "not built: only two configurations (C++20 debug and C++17/C++20 NDEBUG) are run per property; the cross-configuration trace comparison and the async-stack balance oracles do not exist",
 }
